@@ -328,7 +328,7 @@ func hasResultTypeRequiredValidatedHeader(d *m.Design) bool {
 // the generator steers away from exactly those.
 func OpenQuirks() map[string]bool {
 	out := map[string]bool{}
-	for _, id := range []string{"C02-body-fields-client-sends-whole-payload", "C02-primitive-payload-path-param-named-p", "C02-client-path-slash-unescaped", "C03-response-header-array-not-split", "C03-recursive-result-header-attr-lost-in-nested", "C08-recursive-result-type-two-self-refs-loses-attribute", "C08-required-object-absent-client-panic"} {
+	for _, id := range []string{"C02-body-fields-client-sends-whole-payload", "C02-primitive-payload-path-param-named-p", "C02-client-path-slash-unescaped", "C03-response-header-array-not-split", "C03-recursive-result-header-attr-lost-in-nested", "C08-recursive-result-type-two-self-refs-loses-attribute", "C08-required-object-absent-client-panic", "C03-unions-with-the-same-name-share-alternative-types", "C04-union-alternative-validations-not-enforced"} {
 		if kf.Open(id) {
 			out[id] = true
 		}
